@@ -45,6 +45,17 @@ func judgeC02(c colCase, obs colObs) (res vkit.Result, facts lifecycleFacts) {
 			break
 		}
 	}
+	// DryRun may be switched on by a reload (it never is switched off again in these cases):
+	// dryFrom = index of the reload op from which it is on until the end, -1 if none
+	dryEver, dryFrom := c.Cfg.DryRun, -1
+	for _, r := range obs.Reloads {
+		if r.Snap.DryRun && dryFrom < 0 {
+			dryFrom = r.OpIndex
+		} else if !r.Snap.DryRun {
+			dryFrom = -1
+		}
+		dryEver = dryEver || r.Snap.DryRun
+	}
 	for _, id := range sortedTraceIDs(views) {
 		v := views[id]
 		if len(v.Accepted) == 0 {
@@ -59,19 +70,30 @@ func judgeC02(c colCase, obs colObs) (res vkit.Result, facts lifecycleFacts) {
 		for _, f := range v.Forwarded {
 			fw[f.UID] = true
 		}
-		if d.Kept || c.Cfg.DryRun {
+		// dry run in force for the whole life of the trace: every span arrived after the
+		// reload that switched it on for good (or it was on from the start)
+		dryAll := c.Cfg.DryRun
+		if !dryAll && dryFrom >= 0 {
+			dryAll = true
+			for _, a := range v.Accepted {
+				if a.OpIndex <= dryFrom {
+					dryAll = false
+				}
+			}
+		}
+		if d.Kept || dryAll {
 			for _, a := range v.Accepted {
 				if !fw[a.UID] {
 					res.Violate("C02/lost-span-of-kept-trace", "trace %s was kept but span %s (arrived %v via %s) was never forwarded", id, a.UID, a.At, a.Via)
 					break
 				}
 			}
-		} else if len(v.Forwarded) > 0 {
+		} else if len(v.Forwarded) > 0 && !dryEver {
 			res.Violate("C02/forwarded-span-of-dropped-trace", "trace %s was dropped but %d spans were forwarded", id, len(v.Forwarded))
 		}
 	}
 	// each trace decided exactly once
-	if k, d := obs.Counters["trace_send_kept"], obs.Counters["trace_send_dropped"]; int(k+d) != facts.nTracesAccepted && !c.Cfg.DryRun {
+	if k, d := obs.Counters["trace_send_kept"], obs.Counters["trace_send_dropped"]; int(k+d) != facts.nTracesAccepted && !dryEver {
 		res.Violate("C02/decision-count", "%d traces had accepted spans but %d kept + %d dropped decisions were sent", facts.nTracesAccepted, k, d)
 	}
 	return
@@ -81,7 +103,17 @@ func judgeC02(c colCase, obs colObs) (res vkit.Result, facts lifecycleFacts) {
 // "exactly once if its trace is kept (or dry run is on)").
 func genC02Case(t *rapid.T) colCase {
 	c := genLifecycleCase(t)
-	c.Cfg.DryRun = rapid.IntRange(0, 4).Draw(t, "dryrun") == 0
+	switch rapid.IntRange(0, 7).Draw(t, "dryrun") {
+	case 0, 1:
+		c.Cfg.DryRun = true
+	case 2:
+		// dry run switched on by a reload somewhere in the history
+		on := true
+		at := rapid.IntRange(0, len(c.Ops)).Draw(t, "dryreloadat")
+		ops := append([]opSpec{}, c.Ops[:at]...)
+		ops = append(ops, opSpec{Op: "reload", Reload: &reloadSpec{DryRun: &on}})
+		c.Ops = append(ops, c.Ops[at:]...)
+	}
 	return c
 }
 
@@ -108,6 +140,12 @@ func execC02(c colCase) vkit.Result {
 	res.NonTrivial = n >= 2
 	if c.Cfg.DryRun {
 		res.Class("dry-run")
+	}
+	for _, o := range c.Ops {
+		if o.Op == "reload" && o.Reload != nil && o.Reload.DryRun != nil && *o.Reload.DryRun {
+			res.Class("dry-run-enabled-by-reload")
+			break
+		}
 	}
 	return res
 }
